@@ -45,6 +45,48 @@ Fixpoint dumpv (t : vt) : vt :=
   | x => x
   end.
 
+(* ---- type-directed dumping.  A generated input model declares its fields' types
+   (file: Upload, files: Optional[List[Upload]], parent: Optional["DocumentInput"], ...) and pydantic's
+   model_dump serialises each field by the serializer of its DECLARED type; only `Any` fields are
+   serialised by the runtime type (dumpv).  The serializer of the bundled Upload class is a parameter:
+   the class defines no pydantic schema, so arbitrary_types_allowed gives an is-instance schema whose
+   python-mode serializer passes the object through (ser = VUpload).  A value that does not fit the
+   declared type falls back to the runtime type (pydantic's "unexpected value" path). ---- *)
+Inductive fann :=
+| FAny | FLeaf | FUpload
+| FOpt (a : fann) | FList (a : fann)
+| FModel (fs : list (string * fann)).     (* fields in definition order; recursion unrolled *)
+
+Fixpoint dump_fields_any (fs : list (mfield * vt)) : list (string * vt) :=
+  match fs with
+  | [] => []
+  | (f, v) :: r => if mf_set f then (wire f, dumpv v) :: dump_fields_any r else dump_fields_any r
+  end.
+
+Fixpoint dumpt (ser : nat -> vt) (a : fann) (v : vt) {struct a} : vt :=
+  match a with
+  | FAny | FLeaf => dumpv v
+  | FUpload => match v with VUpload id => ser id | _ => dumpv v end
+  | FOpt a' => match v with VLeaf JNull => v | _ => dumpt ser a' v end
+  | FList a' => match v with VList l => VList (map (dumpt ser a') l) | _ => dumpv v end
+  | FModel sch =>
+      match v with
+      | VModel fs =>
+          VDict ((fix go (sch : list (string * fann)) (fs : list (mfield * vt)) : list (string * vt) :=
+                    match sch with
+                    | [] => dump_fields_any fs
+                    | (_, a') :: rs =>
+                        match fs with
+                        | [] => []
+                        | (f, x) :: rf => if mf_set f then (wire f, dumpt ser a' x) :: go rs rf else go rs rf
+                        end
+                    end) sch fs)
+      | _ => dumpv v
+      end
+  end.
+
+Definition ser_upload (id : nat) : vt := VUpload id.     (* the bundled Upload class, as it is *)
+
 (* _convert_value (after /repo dd85cf5): models dumped, lists and dicts mapped *)
 Fixpoint convert_value (t : vt) : vt :=
   match t with
@@ -505,6 +547,34 @@ Fixpoint vt_of_sexp (e : sexp) : option vt :=
   | _ => None
   end.
 
+Fixpoint fann_of_sexp (e : sexp) : option fann :=
+  match e with
+  | A "any" => Some FAny
+  | A "leaf" => Some FLeaf
+  | A "upload" => Some FUpload
+  | L [A "opt"; a] => option_map FOpt (fann_of_sexp a)
+  | L [A "list"; a] => option_map FList (fann_of_sexp a)
+  | L (A "model" :: l) =>
+      option_map FModel
+        ((fix go (l : list sexp) : option (list (string * fann)) :=
+            match l with
+            | [] => Some []
+            | L [A n; a] :: r => match fann_of_sexp a, go r with Some x, Some y => Some ((n, x) :: y) | _, _ => None end
+            | _ => None
+            end) l)
+  | _ => None
+  end.
+
+Fixpoint vt_to_sexp (t : vt) : sexp :=
+  match t with
+  | VLeaf j => L [A "leaf"; json_to_sexp j]
+  | VUpload id => L [A "up"; sN id]
+  | VUnset => A "unset"
+  | VList l => L (A "list" :: map vt_to_sexp l)
+  | VDict kv => L (A "dict" :: map (fun p : string * vt => let (k, v) := p in L [A k; vt_to_sexp v]) kv)
+  | VModel fs => L (A "model" :: map (fun p : mfield * vt => let (f, v) := p in L [A (mf_name f); vt_to_sexp v]) fs)
+  end.
+
 Definition dVars (e : sexp) : option (option (list (string * vt))) :=
   match e with
   | A "none" => Some None
@@ -599,6 +669,11 @@ Definition run_client (e : sexp) : sexp :=
                 L (map span_to_sexp (fst (execute_with_telemetry "GraphQL Operation" url c)))];
              sB (match v' with Some kv => vars_reach_unset kv | None => false end)]
       | _, _, _, _ => sErr "execute: bad arguments"
+      end
+  | L [A "dumpt"; a; v] =>
+      match fann_of_sexp a, vt_of_sexp v with
+      | Some a', Some v' => L [vt_to_sexp (dumpt ser_upload a' v'); vt_to_sexp (dumpv v')]
+      | _, _ => sErr "dumpt: bad arguments"
       end
   | L [A "constants"] =>
       (* the literal data of the model, compared on every run with what the harness reads off /repo's source *)
